@@ -208,6 +208,10 @@ def lanes(ctx):
     c = _sub()
     ln.check(c, [P.fn("lanes_bad"), P.fn("lanes_good")])
     _expect(ctx, "R23.lanes", c, ["lanes_bad"], ["lanes_good"])
+    c2 = _sub()
+    n2 = ln.check_signed_bit_test(c2, [P.fn("bit_test_bad"), P.fn("bit_test_good")])
+    ctx.control("R23.signed-bit-test finds the control compares", n2 == 2, str(n2))
+    _expect(ctx, "R23.signed-bit-test", c2, ["bit_test_bad"], ["bit_test_good"])
 
 
 def atomic(ctx):
